@@ -8,10 +8,18 @@
 (* The process may be killed between any two file operations and inside a write (torn contents).               *)
 (* Property (Inv_Recovered): a reopen shows the contents of the last completed flush (`dur`), or of the flush   *)
 (* that was in progress (`fl`) - never anything else, in particular never an empty store after a flush.        *)
+(* The background flusher is a second actor: BgStart (history step `jbg`) = tryFlushIfDirty() takes the store  *)
+(* mutex, serialises the map (`bimg`) and then issues the same three file operations (BgOpenTmp ; BgWriteTmp ;  *)
+(* BgRename); as built it holds the mutex for all of them, so the application thread cannot run a set / remove / *)
+(* flush in between.  Dev_BgWritesOutsideLock (seeded-change class): the flusher releases the mutex after the    *)
+(* serialisation - an explicit set + flush() completes in between and the flusher then renames its OLDER image   *)
+(* over the newer completed flush (or the two flushes share the temporary file).  Ghost `bok`: no flush has      *)
+(* completed since the flusher serialised, i.e. its image is still "the flush in progress"; a flusher whose      *)
+(* image is older than a completed flush must not reach the store file.                                          *)
 (* Generator mode (Emit): every maximal history is printed as a driver case line.                               *)
 EXTENDS Integers, Sequences, TLC
 
-CONSTANTS NK, NV, MaxOps, MaxCrash, Dev_JsonSaveTruncatesInPlace, Emit
+CONSTANTS NK, NV, MaxOps, MaxCrash, Dev_JsonSaveTruncatesInPlace, Dev_BgWritesOutsideLock, Emit
 
 Keys == 1..NK
 Vals == 1..NV
@@ -19,69 +27,90 @@ EmptyMap == [k \in Keys |-> 0]
 F(st, m) == [st |-> st, m |-> m]
 NoFile == F("none", EmptyMap)
 
-VARIABLES file, tmpf, mem, dirty, cur, pc, fl, up, dur, nops, ncrash, ok, hist
-vars == <<file, tmpf, mem, dirty, cur, pc, fl, up, dur, nops, ncrash, ok, hist>>
+VARIABLES file, tmpf, mem, dirty, cur, pc, fl, up, dur, nops, ncrash, ok, hist,
+          bpc, bimg, bok, bcr        \* background flusher: remaining file operations, its image, ghost (see above), in flight at the crash
+vars == <<file, tmpf, mem, dirty, cur, pc, fl, up, dur, nops, ncrash, ok, hist, bpc, bimg, bok, bcr>>
+bgv == <<bpc, bimg, bok, bcr>>
 
 Init == /\ file = NoFile /\ tmpf = NoFile /\ mem = EmptyMap /\ dirty = FALSE /\ cur = "none" /\ pc = <<>>
         /\ fl = EmptyMap /\ up = TRUE /\ dur = EmptyMap /\ nops = 0 /\ ncrash = 0 /\ ok = TRUE /\ hist = <<>>
+        /\ bpc = <<>> /\ bimg = EmptyMap /\ bok = FALSE /\ bcr = FALSE
 
-Idle == up /\ cur = "none" /\ pc = <<>> /\ nops < MaxOps
+MutexFree == Dev_BgWritesOutsideLock \/ bpc = <<>>       \* as built the flusher holds the store mutex for its whole flush
+Idle == up /\ cur = "none" /\ pc = <<>> /\ nops < MaxOps /\ MutexFree
 Log(s) == hist' = (IF Emit THEN Append(hist, s) ELSE hist)
 
 JSet(k, v) == /\ Idle /\ mem' = [mem EXCEPT ![k] = v] /\ dirty' = TRUE /\ nops' = nops + 1
               /\ Log("jset " \o ToString(k) \o " " \o ToString(v))
-              /\ UNCHANGED <<file, tmpf, cur, pc, fl, up, dur, ncrash, ok>>
+              /\ UNCHANGED <<file, tmpf, cur, pc, fl, up, dur, ncrash, ok>> /\ UNCHANGED bgv
 JRm(k) == /\ Idle /\ mem' = [mem EXCEPT ![k] = 0] /\ dirty' = (dirty \/ mem[k] # 0) /\ nops' = nops + 1
           /\ Log("jrm " \o ToString(k))
-          /\ UNCHANGED <<file, tmpf, cur, pc, fl, up, dur, ncrash, ok>>
+          /\ UNCHANGED <<file, tmpf, cur, pc, fl, up, dur, ncrash, ok>> /\ UNCHANGED bgv
 
 CallFlush == /\ Idle /\ cur' = "flush" /\ fl' = mem
              /\ pc' = IF ~dirty THEN <<>>
                       ELSE IF Dev_JsonSaveTruncatesInPlace THEN <<"OpenTrunc", "Write">>
                       ELSE <<"OpenTmp", "WriteTmp", "Rename">>
-             /\ UNCHANGED <<file, tmpf, mem, dirty, up, dur, nops, ncrash, ok, hist>>
+             /\ UNCHANGED <<file, tmpf, mem, dirty, up, dur, nops, ncrash, ok, hist>> /\ UNCHANGED bgv
 RetFlush == /\ up /\ cur = "flush" /\ pc = <<>>
             /\ dur' = mem /\ dirty' = FALSE /\ cur' = "none" /\ nops' = nops + 1 /\ Log("jflush")
-            /\ UNCHANGED <<file, tmpf, mem, pc, fl, up, ncrash, ok>>
+            /\ bok' = FALSE                     \* a flush completed: an image serialised before it is now out of date
+            /\ UNCHANGED <<file, tmpf, mem, pc, fl, up, ncrash, ok, bpc, bimg, bcr>>
 
 Stepping(t) == up /\ pc # <<>> /\ Head(pc) = t /\ pc' = Tail(pc)
-               /\ UNCHANGED <<mem, dirty, cur, fl, up, dur, nops, ncrash, ok, hist>>
+               /\ UNCHANGED <<mem, dirty, cur, fl, up, dur, nops, ncrash, ok, hist>> /\ UNCHANGED bgv
 StepOpenTrunc == Stepping("OpenTrunc") /\ file' = F("empty", EmptyMap) /\ UNCHANGED tmpf
 StepWrite     == Stepping("Write") /\ file' = F("ok", mem) /\ UNCHANGED tmpf
 StepOpenTmp   == Stepping("OpenTmp") /\ tmpf' = F("empty", EmptyMap) /\ UNCHANGED file
 StepWriteTmp  == Stepping("WriteTmp") /\ tmpf' = F("ok", mem) /\ UNCHANGED file
-StepRename    == Stepping("Rename") /\ file' = tmpf /\ tmpf' = NoFile
+StepRename    == Stepping("Rename") /\ file' = (IF tmpf.st = "none" THEN file ELSE tmpf) /\ tmpf' = NoFile
+
+(* the background flusher *)
+BgStart == /\ up /\ cur = "none" /\ pc = <<>> /\ bpc = <<>> /\ dirty /\ nops < MaxOps       \* tryFlushIfDirty() got the mutex
+           /\ bimg' = mem /\ dirty' = FALSE /\ bok' = TRUE /\ bpc' = <<"OpenTmp", "WriteTmp", "Rename">>
+           /\ nops' = nops + 1 /\ Log("jbg")
+           /\ UNCHANGED <<file, tmpf, mem, cur, pc, fl, up, dur, ncrash, ok, bcr>>
+BgStepping(t) == /\ up /\ bpc # <<>> /\ Head(bpc) = t /\ bpc' = Tail(bpc)
+                 /\ UNCHANGED <<mem, dirty, cur, pc, fl, up, nops, ncrash, ok, hist, bimg, bcr>>
+BgOpenTmp  == BgStepping("OpenTmp") /\ tmpf' = F("empty", EmptyMap) /\ UNCHANGED <<file, dur, bok>>
+BgWriteTmp == BgStepping("WriteTmp") /\ tmpf' = F("ok", bimg) /\ UNCHANGED <<file, dur, bok>>
+BgRename   == /\ BgStepping("Rename") /\ file' = (IF tmpf.st = "none" THEN file ELSE tmpf) /\ tmpf' = NoFile
+              /\ dur' = (IF bok THEN bimg ELSE dur) /\ bok' = FALSE         \* its flush completed
 
 Die == /\ up' = FALSE /\ pc' = <<>> /\ ncrash' = ncrash + 1
-       /\ UNCHANGED <<mem, dirty, cur, fl, dur, nops, ok, hist>>
+       /\ bpc' = <<>> /\ bcr' = (bpc # <<>> /\ bok) /\ bok' = FALSE
+       /\ UNCHANGED <<mem, dirty, cur, fl, dur, nops, ok, hist, bimg>>
 CrashBetween == up /\ ncrash < MaxCrash /\ Die /\ UNCHANGED <<file, tmpf>>
 CrashInWrite == /\ up /\ ncrash < MaxCrash /\ pc # <<>> /\ Head(pc) \in {"Write", "WriteTmp"} /\ Die
                 /\ IF Head(pc) = "Write" THEN file' = F("torn", EmptyMap) /\ UNCHANGED tmpf
                                          ELSE tmpf' = F("torn", EmptyMap) /\ UNCHANGED file
+CrashInBgWrite == /\ up /\ ncrash < MaxCrash /\ bpc # <<>> /\ Head(bpc) = "WriteTmp" /\ Die
+                  /\ tmpf' = F("torn", EmptyMap) /\ UNCHANGED file
 
-CleanClose == /\ Idle /\ ~dirty /\ up' = FALSE /\ nops' = nops + 1 /\ Log("reopen")
-              /\ UNCHANGED <<file, tmpf, mem, dirty, cur, pc, fl, dur, ncrash, ok>>
+CleanClose == /\ Idle /\ ~dirty /\ bpc = <<>> /\ up' = FALSE /\ nops' = nops + 1 /\ Log("reopen")
+              /\ UNCHANGED <<file, tmpf, mem, dirty, cur, pc, fl, dur, ncrash, ok>> /\ UNCHANGED bgv
 
 Reopen == /\ ~up
           /\ LET rec == IF file.st = "ok" THEN file.m ELSE EmptyMap IN      \* unparsable / empty / absent: starts empty
-             /\ ok' = (ok /\ (rec = dur \/ (cur = "flush" /\ rec = fl)))
+             /\ ok' = (ok /\ (rec = dur \/ (cur = "flush" /\ rec = fl) \/ (bcr /\ rec = bimg)))
              /\ mem' = rec /\ dur' = rec
           /\ dirty' = FALSE /\ up' = TRUE
           /\ nops' = IF cur # "none" THEN nops + 1 ELSE nops
           /\ cur' = "none"
-          /\ UNCHANGED <<file, tmpf, pc, fl, ncrash, hist>>
+          /\ bcr' = FALSE /\ UNCHANGED <<file, tmpf, pc, fl, ncrash, hist, bpc, bimg, bok>>
 
 Next == \/ \E k \in Keys, v \in Vals : JSet(k, v)
         \/ \E k \in Keys : JRm(k)
         \/ CallFlush \/ RetFlush
         \/ StepOpenTrunc \/ StepWrite \/ StepOpenTmp \/ StepWriteTmp \/ StepRename
+        \/ BgStart \/ BgOpenTmp \/ BgWriteTmp \/ BgRename \/ CrashInBgWrite
         \/ CrashBetween \/ CrashInWrite \/ CleanClose \/ Reopen
 Spec == Init /\ [][Next]_vars
 
 Inv_Recovered == ok
-Inv_FileNeverTorn == Dev_JsonSaveTruncatesInPlace \/ file.st \in {"none", "ok"}   \* the store file itself is never torn
+Inv_FileNeverTorn == Dev_JsonSaveTruncatesInPlace \/ Dev_BgWritesOutsideLock \/ file.st \in {"none", "ok"}   \* the store file itself is never torn
 
 RECURSIVE JoinS(_)
 JoinS(s) == IF s = <<>> THEN "" ELSE Head(s) \o (IF Len(s) > 1 THEN ";" ELSE "") \o JoinS(Tail(s))
-EmitInv == (Emit /\ up /\ cur = "none" /\ nops = MaxOps) => PrintT("HIST " \o JoinS(hist))
+EmitInv == (Emit /\ up /\ cur = "none" /\ nops = MaxOps /\ bpc = <<>>) => PrintT("HIST " \o JoinS(hist))
 ===============================================================================
